@@ -27,7 +27,7 @@ CAMPAIGNS = {
             "shrink_s": {"quick": 45, "thorough": 240}},
 }
 
-LEVELS = {}
+LEVELS = {"C09": "fault_enumeration"}
 
 REAL_COMPONENTS = [
     "pkg/execution/controllers/{croncontroller,jobqueuecontroller,jobcontroller,jobconfigcontroller} (workers, reconcilers, informer handlers, controls)",
